@@ -4,18 +4,26 @@
 
 pub type Inputs = Vec<(String, String)>;
 
-fn seqs(alphabet: &[&str], seps: &[&str], max_len: usize) -> Vec<String> {
-    let mut res: Vec<String> = vec![];
-    let mut cur: Vec<String> = vec![String::new()];
+/// All sequences of 1..=max_len alphabet elements joined by each separator; returns (label, text).
+/// The label spells the sequence with the separators encoded: "+" nothing, "_" space, "⏎" line feed.
+fn seqs(alphabet: &[&str], seps: &[&str], max_len: usize) -> Vec<(String, String)> {
+    let code = |s: &str| match s {
+        "" => "+",
+        " " => "_",
+        "\n" => "⏎",
+        _ => "?",
+    };
+    let mut res: Vec<(String, String)> = vec![];
+    let mut cur: Vec<(String, String)> = vec![(String::new(), String::new())];
     for len in 1..=max_len {
         let mut next = vec![];
-        for prefix in &cur {
+        for (pl, pt) in &cur {
             for a in alphabet {
                 if len == 1 {
-                    next.push(a.to_string());
+                    next.push((a.to_string(), a.to_string()));
                 } else {
                     for s in seps {
-                        next.push(format!("{prefix}{s}{a}"));
+                        next.push((format!("{pl}{}{a}", code(s)), format!("{pt}{s}{a}")));
                     }
                 }
             }
@@ -54,8 +62,8 @@ pub fn prose(n: usize, long: bool) -> Inputs {
     ];
     let mut out = vec![];
     for (cn, pre, post) in &ctx1 {
-        for l in &lines {
-            out.push((format!("prose:{cn}"), format!("{pre}{l}{post}")));
+        for (ll, l) in &lines {
+            out.push((format!("prose:{cn}:{}", ll.replace('\n', "⏎")), format!("{pre}{l}{post}")));
         }
     }
     // two lines: line break, paragraph breaks with 2..4 line feeds, list continuation lines
@@ -75,10 +83,10 @@ pub fn prose(n: usize, long: bool) -> Inputs {
     ];
     let singles = seqs(&PROSE_ALPHABET, &[" ", ""], 1);
     for (cn, pre, mid, post) in &ctx2 {
-        for a in &short_lines {
-            for b in &singles {
-                out.push((format!("prose:{cn}"), format!("{pre}{a}{mid}{b}{post}")));
-                out.push((format!("prose:{cn}"), format!("{pre}{b}{mid}{a}{post}")));
+        for (al, a) in &short_lines {
+            for (bl, b) in &singles {
+                out.push((format!("prose:{cn}:{al}|{bl}"), format!("{pre}{a}{mid}{b}{post}")));
+                out.push((format!("prose:{cn}:{bl}|{al}"), format!("{pre}{b}{mid}{a}{post}")));
             }
         }
     }
@@ -87,9 +95,9 @@ pub fn prose(n: usize, long: bool) -> Inputs {
         let l130 = "lorem ipsum dolor sit amet consectetur adipiscing elit sed do eiusmod tempor incididunt ut labore et dolore magna aliqua ut enim ad minim v";
         for (ln, long_line) in [("90", l90), ("130", l130)] {
             for (cn, pre, post) in &ctx1 {
-                for l in &short_lines {
-                    out.push((format!("prose:{cn}:long{ln}"), format!("{pre}{long_line} {l} {long_line}{post}")));
-                    out.push((format!("prose:{cn}:long{ln}"), format!("{pre}{l} {long_line}{post}")));
+                for (ll, l) in &short_lines {
+                    out.push((format!("prose:{cn}:long{ln}:mid:{ll}"), format!("{pre}{long_line} {l} {long_line}{post}")));
+                    out.push((format!("prose:{cn}:long{ln}:head:{ll}"), format!("{pre}{l} {long_line}{post}")));
                 }
             }
         }
@@ -126,8 +134,8 @@ pub fn math(n: usize) -> Inputs {
     ];
     let mut out = vec![];
     for (cn, pre, post) in &ctxs {
-        for it in &items {
-            out.push((format!("math:{cn}"), format!("{pre}{it}{post}")));
+        for (il, it) in &items {
+            out.push((format!("math:{cn}:{}", il.replace('\n', "⏎")), format!("{pre}{it}{post}")));
         }
     }
     out
